@@ -384,3 +384,55 @@ def expected_print(args, sep, end, vals):
         kw["end"] = end
     print(*[render_print_arg(a, vals) for a in args], file=buf, **kw)
     return buf.getvalue()
+
+
+# ----------------------------------------------------------------------------------------------- inserted enables
+class EnableModel:
+    """A checker (Print / Assert / Assume statements, optionally a register r) wrapped in EnableInserter /
+    ResetInserter.  The statements are active at an active clock edge iff EVERY inserted enable around them is 1
+    (and their own m.If condition holds); an inserted reset only resets the registers inside it (when enabled).
+    Watched register w counts active edges (frozen / reset like any register when its driver is inside the wrapper)."""
+    def __init__(self, desc):
+        self.desc = desc
+        self.w = self.r = 0
+        self.clk = 0
+
+    def state(self):
+        return (self.w, self.r, self.clk)
+
+    def step(self, inp, toggle):
+        """inp: dict name -> int.  -> dict(edge, enabled, prints, fails, would_print, would_fail)"""
+        desc = self.desc
+        d = inp["d"]
+        edge = bool(toggle) and self.clk == (0 if desc["edge"] == "pos" else 1)
+        if toggle:
+            self.clk ^= 1
+        wrapper = desc["wrapper"]
+        enabled = {"none": 1, "rst": 1, "en": inp.get("en1", 1), "en_dict": inp.get("en1", 1),
+                   "en_en": inp.get("en1", 1) & inp.get("en2", 1), "en_rst": inp.get("en1", 1)}[wrapper]
+        reset = inp.get("srst", 0) if wrapper in ("rst", "en_rst") else 0
+        w, r = self.w, self.r
+        prints, fails = [], []
+        if "P" in desc["content"]:
+            prints.append(f"Q:{w}:{d}:{r}")
+            if d & 1:
+                prints.append(f"R:{w}")
+        if "A" in desc["content"]:
+            if w == 2 and not (d >> 1) & 1:
+                fails.append(f"A:{w}:{d}")
+            if d & 1 and w == 1:
+                fails.append(f"U:{w}")
+        res = {"edge": edge, "enabled": bool(enabled), "reset": bool(reset), "prints": [], "fails": [],
+               "would_print": bool(prints), "would_fail": bool(fails), "pre": {"w": w, "r": r, "d": d}}
+        if not edge:
+            return res
+        if enabled:
+            res["prints"], res["fails"] = prints, fails
+        if desc["place"] in ("subsub_w", "same"):          # driver of w inside the wrapper
+            if enabled:
+                self.w = 0 if reset else (w + 1) & 3
+        else:
+            self.w = (w + 1) & 3
+        if "R" in desc["content"] and enabled:
+            self.r = 0 if reset else (r + 1) & 3
+        return res
